@@ -3,6 +3,7 @@ package main
 import (
 	"fmt"
 	"go/types"
+	"regexp"
 	"sort"
 	"strings"
 
@@ -201,6 +202,150 @@ func shortHeap(v string) string {
 
 // BuildQuery renders the SMT-LIB text of one obligation.
 func (o *Obligation) BuildQuery(withModel bool, lite bool) string {
+	return o.BuildQueryV(withModel, lite, false)
+}
+
+// BuildQueryV: lite drops closedness and quantified frame axioms; ground additionally replaces every
+// contract-level quantified hypothesis by its instances at the candidate terms (sound: hypotheses are only dropped)
+func (o *Obligation) BuildQueryV(withModel bool, lite bool, ground bool) string {
+	return o.BuildQueryS(withModel, lite, ground, false)
+}
+
+var reSym = regexp.MustCompile(`\|[^|]*\||[A-Za-z_$][A-Za-z0-9_$.@]*![0-9]+`)
+
+func symsOf(s string) []string {
+	m := reSym.FindAllString(s, -1)
+	seen := map[string]bool{}
+	var out []string
+	for _, x := range m {
+		if !seen[x] {
+			seen[x] = true
+			out = append(out, x)
+		}
+	}
+	return out
+}
+
+// sineSelect: SInE-style relevance filter. A fact is triggered by its rarest symbols; starting from the symbols
+// of the goal, triggered facts are added until a fixpoint. Dropping hypotheses is sound.
+var reReach = regexp.MustCompile(`^R(inv|\d+_)!\d+$`)
+
+func sineSelect(texts []string, goal string, tolerance float64) []bool {
+	occ := map[string]int{}
+	fsyms := make([][]string, len(texts))
+	rsyms := make([][]string, len(texts)) // reach variables mentioned
+	rdef := map[string]int{}              // reach variable -> index of its defining fact
+	for i, t := range texts {
+		all := symsOf(t)
+		for _, s := range all {
+			if reReach.MatchString(s) {
+				rsyms[i] = append(rsyms[i], s)
+			} else {
+				fsyms[i] = append(fsyms[i], s)
+			}
+		}
+		if strings.HasPrefix(t, "(assert (= R") && len(all) > 0 && reReach.MatchString(all[0]) {
+			rdef[all[0]] = i
+			fsyms[i] = nil
+			rsyms[i] = all
+			continue
+		}
+		for _, s := range fsyms[i] {
+			occ[s]++
+		}
+	}
+	triggers := map[string][]int{}
+	for i, ss := range fsyms {
+		if len(ss) == 0 {
+			continue
+		}
+		min := 1 << 30
+		for _, s := range ss {
+			if occ[s] < min {
+				min = occ[s]
+			}
+		}
+		for _, s := range ss {
+			if float64(occ[s]) <= tolerance*float64(min) {
+				triggers[s] = append(triggers[s], i)
+			}
+		}
+	}
+	inc := make([]bool, len(texts))
+	cone := map[string]bool{}
+	var work []string
+	for _, s := range symsOf(goal) {
+		cone[s] = true
+		work = append(work, s)
+	}
+	for len(work) > 0 {
+		s := work[len(work)-1]
+		work = work[:len(work)-1]
+		for _, i := range triggers[s] {
+			if inc[i] {
+				continue
+			}
+			inc[i] = true
+			for _, s2 := range fsyms[i] {
+				if !cone[s2] {
+					cone[s2] = true
+					work = append(work, s2)
+				}
+			}
+		}
+	}
+	for i, ss := range fsyms {
+		if len(ss) == 0 {
+			if _, isDef := rdefOf(rdef, i); !isDef {
+				inc[i] = true
+			}
+		}
+	}
+	// close under the definitions of the reach variables that occur in what was selected (and in the goal)
+	var rwork []string
+	rseen := map[string]bool{}
+	for _, s := range symsOf(goal) {
+		if reReach.MatchString(s) && !rseen[s] {
+			rseen[s] = true
+			rwork = append(rwork, s)
+		}
+	}
+	for i := range texts {
+		if inc[i] {
+			for _, s := range rsyms[i] {
+				if !rseen[s] {
+					rseen[s] = true
+					rwork = append(rwork, s)
+				}
+			}
+		}
+	}
+	for len(rwork) > 0 {
+		s := rwork[len(rwork)-1]
+		rwork = rwork[:len(rwork)-1]
+		if i, ok := rdef[s]; ok && !inc[i] {
+			inc[i] = true
+			for _, s2 := range symsOf(texts[i]) {
+				if reReach.MatchString(s2) && !rseen[s2] {
+					rseen[s2] = true
+					rwork = append(rwork, s2)
+				}
+			}
+		}
+	}
+	return inc
+}
+
+func rdefOf(rdef map[string]int, i int) (string, bool) {
+	for s, j := range rdef {
+		if j == i {
+			return s, true
+		}
+	}
+	return "", false
+}
+
+func (o *Obligation) BuildQueryS(withModel bool, lite bool, ground bool, sine bool) string {
 	fc := o.fc
 	var sb strings.Builder
 	sb.WriteString(prelude)
@@ -227,29 +372,76 @@ func (o *Obligation) BuildQuery(withModel bool, lite bool) string {
 		addc(sk)
 		addc(sApp("-", sk, "1"))
 		addc(sApp("+", sk, "1"))
+		// positions relative to the start of appended segments, and absolute positions in backing arrays
+		n := len(fc.appendLens)
+		for i := n - 1; i >= 0 && i >= n-6; i-- {
+			addc(sApp("-", sk, fc.appendLens[i]))
+		}
+		m := len(fc.appendOffs)
+		for i := m - 1; i >= 0 && i >= m-4; i-- {
+			addc(sApp("+", fc.appendOffs[i], sk))
+		}
 	}
 	for _, c := range fc.cands[:o.NCands] {
+		// a term created in a block that does not dominate the obligation's block is not defined on every
+		// path to it: skip
+		if cb := fc.candBlock[c]; cb != nil && o.Block != nil && cb.Parent() == o.Block.Parent() && !cb.Dominates(o.Block) {
+			continue
+		}
 		addc(c)
 	}
+	var body []string
+	emit := func(t string) { body = append(body, t) }
 	addc("0")
+	// terms used as indices / keys in the goal itself
+	for _, t := range indexTerms(o.Goal + " " + o.Guard) {
+		addc(t)
+	}
 	for _, f := range fc.facts[:o.NFacts] {
 		if lite && (f.Class == "closed" || f.Class == "frameq") {
 			continue
 		}
 		for _, q := range f.Quants {
-			for _, c := range cands {
-				inst := strings.Replace(f.Term, q.Forall, q.instantiate(c, cands, 1), 1)
+			for _, c := range append(append([]string{}, cands...), q.Consts...) {
+				inst := strings.Replace(f.Term, q.Forall, q.instantiate(c, cands, 1, ground), 1)
+				if ground {
+					for _, q2 := range f.Quants {
+						if q2.Forall != q.Forall {
+							inst = strings.Replace(inst, q2.Forall, "true", 1)
+						}
+					}
+				}
 				if f.Guard == "true" {
-					fmt.Fprintf(&sb, "(assert %s)\n", inst)
+					emit(fmt.Sprintf("(assert %s)", inst))
 				} else {
-					fmt.Fprintf(&sb, "(assert (=> %s %s))\n", f.Guard, inst)
+					emit(fmt.Sprintf("(assert (=> %s %s))", f.Guard, inst))
 				}
 			}
 		}
+		term := f.Term
+		if ground && len(f.Quants) > 0 {
+			for _, q := range f.Quants {
+				term = strings.Replace(term, q.Forall, "true", 1)
+			}
+		}
 		if f.Guard == "true" {
-			fmt.Fprintf(&sb, "(assert %s)\n", f.Term)
+			emit(fmt.Sprintf("(assert %s)", term))
 		} else {
-			fmt.Fprintf(&sb, "(assert (=> %s %s))\n", f.Guard, f.Term)
+			emit(fmt.Sprintf("(assert (=> %s %s))", f.Guard, term))
+		}
+	}
+	if sine {
+		keep := sineSelect(body, o.Guard+" "+o.Goal, 2.0)
+		for i, t := range body {
+			if keep[i] {
+				sb.WriteString(t)
+				sb.WriteString("\n")
+			}
+		}
+	} else {
+		for _, t := range body {
+			sb.WriteString(t)
+			sb.WriteString("\n")
 		}
 	}
 	fmt.Fprintf(&sb, "; obligation %s / %s\n", o.Func, o.Name)
@@ -263,3 +455,38 @@ func (o *Obligation) BuildQuery(withModel bool, lite bool) string {
 }
 
 var _ = types.Typ
+
+// indexTerms returns the ground terms that occur as the index of a select in s (bounded in number and size)
+func indexTerms(s string) []string {
+	var out []string
+	seen := map[string]bool{}
+	var walk func(t string)
+	walk = func(t string) {
+		if !strings.HasPrefix(t, "(") || len(out) > 12 {
+			return
+		}
+		args := splitSexpr(t)
+		if len(args) == 0 {
+			return
+		}
+		if args[0] == "forall" || args[0] == "exists" {
+			return
+		}
+		if args[0] == "select" && len(args) == 3 {
+			ix := args[2]
+			if !seen[ix] && len(ix) < 160 && !reBoundVar.MatchString(ix) && !strings.HasPrefix(ix, "(+ (sl_off") {
+				if _, isNum := numeral(ix); !isNum {
+					seen[ix] = true
+					out = append(out, ix)
+				}
+			}
+		}
+		for _, a := range args[1:] {
+			walk(a)
+		}
+	}
+	for _, part := range strings.Split(s, "\n") {
+		walk(strings.TrimSpace(part))
+	}
+	return out
+}
